@@ -1,6 +1,7 @@
 package restful
 
 import (
+	"errors"
 	"net/http"
 )
 
@@ -124,12 +125,21 @@ func vChainContainer(k *vChain, nc, ns, nr int, mwAt int) *Container {
 	b := ws.GET("/a").To(k.handler)
 	b.If(func(r *http.Request) bool {
 		k.maybePanic(-5) // position -5: inside a route selection condition
-		return true
+		return r.Header.Get("X-Sib") == ""
 	})
 	for i := 0; i < nr; i++ {
 		b.Filter(mk())
 	}
 	ws.Route(b)
+	// a sibling with the same method and path, told apart by a condition, with a route filter of its own:
+	// what it runs must never show up in a request for the route above
+	sib := ws.GET("/a").To(func(req *Request, resp *Response) { k.log = append(k.log, "HS") })
+	sib.If(func(r *http.Request) bool { return r.Header.Get("X-Sib") != "" })
+	sib.Filter(func(req *Request, resp *Response, chain *FilterChain) {
+		k.log = append(k.log, "S")
+		chain.ProcessFilter(req, resp)
+	})
+	ws.Route(sib)
 	c.Add(ws)
 	return c
 }
@@ -167,11 +177,22 @@ func refChainLog(filts []*vFilt, upto int, withHandler bool) (logs []string, con
 	return
 }
 
+// vFailRouter is a custom RouteSelector whose routing failures are plain errors, not ServiceErrors.
+type vFailRouter struct{}
+
+func (vFailRouter) SelectRoute(webServices []*WebService, httpRequest *http.Request) (*WebService, *Route, error) {
+	return nil, nil, errors.New("verif: no route")
+}
+
 // H_C06: filters run container, service, route in order, each once, per request.
-// mode 0: routed request via Dispatch; 1: request that fails routing; 2: HandleWithFilter via ServeHTTP
+// mode 0: routed request via Dispatch; 1: request that fails routing; 2: HandleWithFilter via ServeHTTP;
+// 3: routing fails in a custom RouteSelector that reports a plain error
 func H_C06(nc, ns, nr, mwAt, mode int) {
 	k := &vChain{panicAt: -1, expAttr: map[string]int{}}
 	c := vChainContainer(k, nc, ns, nr, mwAt)
+	if mode == 3 {
+		c.Router(vFailRouter{})
+	}
 	plainRan := 0
 	if mode == 2 {
 		c.HandleWithFilter("/plain", http.HandlerFunc(func(w http.ResponseWriter, r *http.Request) {
@@ -188,7 +209,11 @@ func H_C06(nc, ns, nr, mwAt, mode int) {
 			saved[i] = f.stop
 			f.stop = false
 		}
-		c.Dispatch(vNewRec(), vReq{method: "GET", path: "/t/a"}.http())
+		wr := vReq{method: "GET", path: "/t/a"}.http()
+		if nondetBool("warmsib") {
+			wr.Header.Set("X-Sib", "1") // the earlier request went to the sibling route
+		}
+		c.Dispatch(vNewRec(), wr)
 		for i, f := range k.filts {
 			f.stop = saved[i]
 		}
@@ -202,7 +227,7 @@ func H_C06(nc, ns, nr, mwAt, mode int) {
 	switch mode {
 	case 0:
 		c.Dispatch(rec, vReq{method: "GET", path: "/t/a"}.http())
-	case 1:
+	case 1, 3:
 		c.Dispatch(rec, vReq{method: "GET", path: "/t/nomatch"}.http())
 	case 2:
 		c.ServeHTTP(rec, vReq{method: "GET", path: "/plain"}.http())
@@ -214,7 +239,7 @@ func H_C06(nc, ns, nr, mwAt, mode int) {
 	verifObserveInt("status", rec.code())
 	upto := len(k.filts)
 	withHandler := true
-	if mode == 1 {
+	if mode == 1 || mode == 3 {
 		upto, withHandler = nc, false // only container filters run around the error response
 	}
 	if mode == 2 {
